@@ -31,6 +31,11 @@ type Instance struct {
 type Config struct {
 	Options
 	MaxCost  int       // preemption/deviation bound (inclusive)
+	// SkipBelow > 0 makes the exploration an increment: schedules with fewer
+	// than SkipBelow preemptions are re-executed only to find their successors
+	// (not replayed, not visited, not counted); they were reported by an
+	// earlier exploration with MaxCost = SkipBelow-1.
+	SkipBelow int
 	Workers  int       // parallel executions (1 when the code under test has package-level state)
 	Deadline time.Time // stop (not exhaustive) when passed
 	New      func() Instance
@@ -76,6 +81,30 @@ func Explore(cfg Config) Stats {
 		inflight := 0
 		cond := sync.NewCond(&mu)
 		capped := false
+		// expand pushes the successors of an executed prefix: one choice point
+		// beyond the prefix flipped to a non-default option. Called under mu.
+		expand := func(it workItem, res *Result, choices []uint8) {
+			for k := len(it.prefix); k < len(res.Points); k++ {
+				p := res.Points[k]
+				for a := 1; a < int(p.N); a++ {
+					c := it.cost
+					if a >= int(p.CostlyFrom) {
+						c++
+					}
+					if c > cfg.MaxCost {
+						continue
+					}
+					child := make([]uint8, k+1)
+					copy(child, choices[:k])
+					child[k] = uint8(a)
+					if c == cost {
+						stack = append(stack, workItem{child, c})
+					} else {
+						next = append(next, workItem{child, c})
+					}
+				}
+			}
+		}
 		var wg sync.WaitGroup
 		for w := 0; w < cfg.Workers; w++ {
 			wg.Add(1)
@@ -104,8 +133,16 @@ func Explore(cfg Config) Stats {
 
 					inst := cfg.New()
 					res := Run(cfg.Options, it.prefix, false, inst.Body)
-					j := inst.Judge(res)
 					choices := res.Choices()
+					if it.cost < cfg.SkipBelow && res.End != "replay-error" && res.End != "infra" && res.Cost == it.cost {
+						mu.Lock()
+						expand(it, res, choices)
+						inflight--
+						mu.Unlock()
+						cond.Broadcast()
+						continue
+					}
+					j := inst.Judge(res)
 					// Strict replay: the same vector must give the same run.
 					inst2 := cfg.New()
 					res2 := Run(cfg.Options, choices, true, inst2.Body)
@@ -140,28 +177,8 @@ func Explore(cfg Config) Stats {
 					if cfg.Visit != nil {
 						cfg.Visit(choices, res, j)
 					}
-					// Children: flip one choice point beyond the prefix.
 					if res.End != "replay-error" {
-						for k := len(it.prefix); k < len(res.Points); k++ {
-							p := res.Points[k]
-							for a := 1; a < int(p.N); a++ {
-								c := it.cost
-								if a >= int(p.CostlyFrom) {
-									c++
-								}
-								if c > cfg.MaxCost {
-									continue
-								}
-								child := make([]uint8, k+1)
-								copy(child, choices[:k])
-								child[k] = uint8(a)
-								if c == cost {
-									stack = append(stack, workItem{child, c})
-								} else {
-									next = append(next, workItem{child, c})
-								}
-							}
-						}
+						expand(it, res, choices)
 					}
 					inflight--
 					mu.Unlock()
